@@ -4,7 +4,7 @@
 #[verifier::external_body] pub struct HeaderValue { _p: u8 }
 #[verifier::external_body] pub struct ToStrError { _p: u8 }
 #[verifier::external_body] pub struct HeaderMap { _p: u8 }
-#[verifier::external_body] pub struct ParseIntError { _p: u8 }
+#[verifier::external_body] #[derive(Debug)] pub struct ParseIntError { _p: u8 }
 #[verifier::external_body] pub struct Body { _p: u8 }
 #[verifier::external_body] pub struct HttpBuildError { _p: u8 }   // http::Error
 #[verifier::external_body] pub struct JsonError { _p: u8 }        // serde_json::Error
